@@ -332,12 +332,18 @@ CHANGE_SETS = [
     [(0, 0, 4), (2, 0, 4), (2, F(1, 48), 4)],
     [(0, 0, 5), (1, 0, 4), (1, F(5, 2), 4), (3, 0, 3)],
 ]
+# two changes on one position: the later listed one is in force from there on
+TIE_SETS = [
+    [(0, 0, 4), (2, 0, 4), (2, 0, 4)],
+    [(0, 0, 4), (0, 0, 4), (1, 2, 4)],
+    [(0, 0, 4), (1, F(3, 2), 4), (1, F(3, 2), 4), (3, 0, 4)],
+]
 
 
 def obligations(tier, seed):
     quick = tier == "quick"
     obs = []
-    sets = CHANGE_SETS[:7] if quick else CHANGE_SETS
+    sets = (CHANGE_SETS[:7] + TIE_SETS[:2]) if quick else (CHANGE_SETS + TIE_SETS)
     for ci, ch in enumerate(sets):
         base = _queries_for(ch)
         orders = [base, base[::-1], [base[2], base[0], base[2], base[1], base[0]]]
